@@ -8,6 +8,10 @@ k = json.loads(main.read_text())
 have = {(f["property"], f["id"]) for f in k["open"]}
 for f in sorted((ROOT / "known_findings.d").glob("*.json")):
     frag = json.loads(f.read_text())
+    rp = frag.get("replace_property")
+    if rp:  # the fragment is the complete new state of that property's open findings
+        k["open"] = [e for e in k["open"] if e["property"] != rp]
+        have = {(e["property"], e["id"]) for e in k["open"]}
     for e in frag.get("open", []):
         if (e["property"], e["id"]) not in have:
             k["open"].append(e); have.add((e["property"], e["id"]))
